@@ -923,6 +923,7 @@ func lemmaCreateThenMapQueue(data []byte, cap uint32) {
 //@   at call? (*Session).IsClosed#0 ghost sawSessionClosed := sawSessionClosed || r0
 //@   at call? (*Session).IsClosed#1 ghost sawSessionClosed := sawSessionClosed || r0
 //@   at call? (*queue).put#0 ghost notified := notified || r0 == nil
+//@   at call? (*Session).waitForSend#0 hint[C10,C07] len(a2) == 12 && be32(a2, 0) == 12 && be16(a2, 4) == 30552 && mem8(a2, 7) == 2 && be32(a2, 8) == s.id   // the StreamClose event decodes (handleStreamClose) to this stream's id
 //@   at call? (*Session).waitForSend#0 ghost notified := true
 //@   exit[C10] cbs <= 1 && (won ==> cleaned)
 //@   ghost var putOK bool = false
